@@ -38,8 +38,25 @@ def local_of_mut_ref(blocks, bi, op):
                     if p["p"] == ["*"]:
                         found = p["l"]
         if found is None:
-            return None
+            break
         target = found
+    # the borrow may have been taken in an earlier block (two-phase borrows: `w.extend(f(..))`)
+    for _ in range(4):
+        defs = []
+        for bb in blocks:
+            if bb["cleanup"]:
+                continue
+            for st in bb["st"]:
+                if "lhs" in st and st["lhs"]["l"] == target and not st["lhs"]["p"]:
+                    defs.append(st["rv"])
+        if len(defs) != 1 or defs[0]["k"] != "ref":
+            return None
+        p = defs[0]["p"]
+        if not p["p"]:
+            return p["l"]
+        if p["p"] != ["*"]:
+            return None
+        target = p["l"]
     return None
 
 
@@ -54,7 +71,8 @@ def worklist_loops(body):
                 w = local_of_mut_ref(blocks, bi, t["args"][0])
                 if w is not None:
                     pops.append((bi, w))
-            elif name == "std::vec::Vec::push":
+            elif name == "std::vec::Vec::push" or (name or "").endswith("std::iter::Extend>::extend"):
+                # `work_list.extend(successors.map(..))` queues work just like a push per element
                 w = local_of_mut_ref(blocks, bi, t["args"][0])
                 if w is not None:
                     pushes.append((bi, w))
@@ -219,8 +237,9 @@ def idiom_c(body, wl):
     at most once, never lowered; the body proceeds only on creation or raise."""
     blocks = body["mir"]["blocks"]
     calls = cfg.calls_in(blocks, wl["members"])
-    if not any(name == "std::collections::HashMap::entry" for _, name, _ in calls):
-        return False, "no map entry in the loop", None
+    if not any(name in ("std::collections::HashMap::entry", "std::collections::HashMap::get")
+               for _, name, _ in calls):
+        return False, "no map entry / lookup in the loop", None
     heads = set(wl["loops"])
     rows = {}
     for (kind, old, new), (exp_proceed, exp_store) in sorted(C_TABLE.items(), key=repr):
@@ -232,6 +251,16 @@ def idiom_c(body, wl):
                 return [(st, some(("tuple", (("sym", "state"), ("int", new, "bool")))))]
             if n == "std::collections::HashMap::entry":
                 return [(st, ("mapentry", kind))]
+            if n == "std::collections::HashMap::get":
+                # `match map.get(&k) { Some(&old) if .. => continue, _ => {} } map.insert(k, new)`
+                if kind == "Vacant":
+                    return [(st, NONE)]
+                st.set_cell(("sym", "old"), (), ("int", old if old is not None else 0, "bool"))
+                return [(st, some(("ref", ("sym", "old"), ())))]
+            if n == "std::collections::HashMap::insert" and len(c.args) == 3:
+                stores.append(c.args[2])
+                st.events.append(("store", c.args[2]))
+                return [(st, NONE)]
             if n == "std::collections::hash_map::OccupiedEntry::get":
                 st.set_cell(("sym", "old"), (), ("int", old if old is not None else 0, "bool"))
                 return [(st, ("ref", ("sym", "old"), ()))]
@@ -240,7 +269,7 @@ def idiom_c(body, wl):
                 stores.append(c.args[1])
                 st.events.append(("store", c.args[1]))
                 return [(st, ("unit",))]
-            if n == "std::vec::Vec::push":
+            if n == "std::vec::Vec::push" or n.endswith("std::iter::Extend>::extend"):
                 st.events.append(("push", c.args[1]))
                 return [(st, ("unit",))]
             return None
@@ -376,17 +405,26 @@ def check_rwl(ctx, prog):
             ctx.ob("R-WL", "update_backtracks: a state's backtrack flag is only ever raised "
                    "(monotone) or each (state, flag) pair is visited once", okc or oka,
                    key="R-WL:update_backtracks:monotone", where=ub["span"], detail=wc)
-            srcs = push_flag_sources(ub, wl)
-            names = ub["mir"].get("names", {})
-            shown = {("bb%d" % b): names.get(str(v), "_%s" % v) for b, v in sorted(srcs.items())}
-            ctx.ob("R-WL", "update_backtracks: all successor kinds are pushed with the same flag "
-                   "(sibling agreement over %d pushes)" % len(srcs),
-                   len(srcs) == len(wl["pushes"]) and len(set(srcs.values())) == 1 and len(srcs) >= 4,
+            from .rules_thompson import Sym, project, show as show_term
+            sym = Sym(ub, {1: "dfa"}, crate=lex)
+            flags = {}
+            for pb in wl["pushes"]:
+                t = ub["mir"]["blocks"][pb]["term"]
+                v = sym.operand(t["args"][1])
+                if (norm_path(t.get("resp") or t["f"].get("path")) or "").endswith("Extend>::extend"):
+                    v = sym.elem(v)
+                flags[pb] = project(v, (("f", 1),))
+            shown = {("bb%d" % b): show_term(v)[:120] for b, v in sorted(flags.items())}
+            ctx.ob("R-WL", "update_backtracks: all successors are queued with the same flag "
+                   "(sibling agreement over %d queueing site(s))" % len(flags),
+                   len(flags) == len(wl["pushes"]) and len(set(flags.values())) == 1 and len(flags) >= 1
+                   and not any(v[0] in ("path", "elem") and v == ("nothing",) for v in flags.values()),
                    key="R-WL:update_backtracks:siblings", where=ub["span"],
-                   detail={"flag source per push": shown,
+                   detail={"flag per queueing site": shown,
                            "meaning": "the char, range, `_` and end-of-input successors of a state "
                                       "must inherit the same backtrack flag; a push that passes a "
-                                      "different value leaves one kind of successor unmarked"})
+                                      "different value leaves one kind of successor unmarked (that all "
+                                      "four kinds are visited is R-EXH)"})
     return found
 
 
@@ -764,50 +802,58 @@ def left_assoc(body, commutative=False):
 
 # ---------------------------------------------------------------------------------- R-SCOPE
 def check_rscope(ctx, prog):
+    """Rule sets get a copy of the top-level bindings; the top-level map itself only ever receives
+    top-level `let`s."""
+    from .rules_thompson import Sym, show as show_term, strip_clone, _is_call
     lex = prog.crate(LEX)
     b = lex.body("lexer")
     if not ctx.ob("R-SCOPE", "proc macro entry `lexer` found", b is not None, key="R-SCOPE:anchor"):
         return
-    blocks = b["mir"]["blocks"]
-    names = b["mir"].get("names", {})
-    bind = [int(k) for k, v in names.items() if v == "bindings"]
-    if not ctx.ob("R-SCOPE", "local `bindings` found", len(bind) == 1, key="R-SCOPE:bindings"):
-        return
-    bind = bind[0]
+    sym = Sym(b, {1: "input"}, crate=lex)
+    calls = sym.all_calls()
+    crs_calls = [x for x in calls if x[1] == "compile_rule_set"]
+    tops = set()
     n = 0
-    clones = {}
-    for bi, callee, t in cfg.calls_in(blocks):
-        if callee and callee.endswith("as std::clone::Clone>::clone") and "HashMap" in (t.get("res") or ""):
-            src = local_of_ref(blocks, bi, t["args"][0])
-            clones[t["dest"]["l"]] = src
-    for bi, callee, t in cfg.calls_in(blocks):
-        if callee == "compile_rule_set":
-            n += 1
-            a = t["args"][1].get("move") or t["args"][1].get("copy")
-            ok = a is not None and clones.get(a["l"]) == bind
-            ctx.ob("R-SCOPE", "compile_rule_set receives a clone of the top-level bindings", ok,
-                   key="R-SCOPE:clone:%d" % n, where=blocks[bi].get("span"),
-                   detail="a rule set's `let`s must not become visible in later rule sets")
+    for bi, c, a in crs_calls:
+        n += 1
+        arg = a[1] if len(a) > 1 else ("nothing",)
+        is_clone = _is_call(arg, "Clone>::clone") or _is_call(arg, "::clone")
+        ctx.ob("R-SCOPE", "compile_rule_set receives a clone of the top-level bindings", is_clone,
+               key="R-SCOPE:clone:%d" % n, where=sym.blocks[bi].get("span"),
+               detail={"argument": show_term(arg)[:200],
+                       "meaning": "a rule set's `let`s must not become visible in later rule sets"})
+        if is_clone:
+            tops.add(strip_clone(arg))
     ctx.floor("calls of compile_rule_set", n, 2)
+    if not ctx.ob("R-SCOPE", "all rule sets are compiled against the same top-level bindings", len(tops) == 1,
+                  key="R-SCOPE:bindings", where=b["span"], detail=[show_term(x)[:120] for x in tops]):
+        return
+    B = next(iter(tops))
     crs = lex.body("compile_rule_set")
     if crs is not None:
         ok = crs["sig_in"][1].startswith("std::collections::HashMap<") if len(crs["sig_in"]) > 1 else False
         ctx.ob("R-SCOPE", "compile_rule_set takes the bindings by value", ok, key="R-SCOPE:byvalue",
                where=crs["span"], detail=crs["sig_in"])
-    # mutable borrows of `bindings` in `lexer`: only for HashMap::entry in the top-level Binding arm
-    mut = []
-    for bi, bb in enumerate(blocks):
-        if bb["cleanup"]:
+    # what is ever put into the top-level map: keys that come from a top-level `let` item
+    READS = re.compile(r"(Clone>::clone|::clone|HashMap::get|HashMap::contains_key|HashMap::len|HashMap::iter|"
+                       r"HashMap::is_empty|Index>::index|Deref>::deref)$")
+    bad = []
+    n_mut = 0
+    for bi, c, a in calls:
+        if not a or a[0] != B or READS.search(c) or c == "compile_rule_set":
             continue
-        for st in bb["st"]:
-            rv = st.get("rv")
-            if rv and rv["k"] == "ref" and rv.get("mut") and rv["p"]["l"] == bind and not rv["p"]["p"]:
-                t = bb["term"]
-                callee = norm_path(t.get("resp") or t["f"].get("path")) if t["k"] == "call" else None
-                mut.append((bi, callee))
-    ctx.ob("R-SCOPE", "the top-level bindings are mutated only by the top-level `let` arm "
-           "(HashMap::entry)", len(mut) == 1 and mut[0][1] == "std::collections::HashMap::entry",
-           key="R-SCOPE:mut", where=b["span"], detail=mut)
+        locals_ = b["mir"]["locals"]
+        t = sym.blocks[bi]["term"]
+        q = t["args"][0].get("move") or t["args"][0].get("copy")
+        ty = locals_[q["l"]] if q is not None and not q["p"] else ""
+        if not str(ty).startswith("&mut"):
+            continue
+        n_mut += 1
+        key = a[1] if len(a) > 1 else ("nothing",)
+        if not term_has(key, lambda y: y == ("as", "Binding")) or term_has(key, lambda y: y == ("as", "RuleSet")):
+            bad.append((c, show_term(key)[:160]))
+    ctx.ob("R-SCOPE", "the top-level bindings only ever receive top-level `let` items", not bad and n_mut >= 1,
+           key="R-SCOPE:mut", where=b["span"], detail={"other writers": bad, "writers": n_mut})
 
 
 # ------------------------------------------------------------------------------------ R-CHK
@@ -882,6 +928,34 @@ def variant_target(blocks, sw, variant_names):
     return None
 
 
+def guarded_divergences(lex, body, roles=None):
+    """[(term of the tested value, block)] for every two-way or multi-way branch one of whose edges leads
+    only to a panic: the value whose test decides the rejection, as a def-use term."""
+    from .rules_thompson import Sym
+    sym = Sym(body, roles or {}, crate=lex)
+    blocks = body["mir"]["blocks"]
+    out = []
+    for bi, bb in enumerate(blocks):
+        if bb["cleanup"]:
+            continue
+        t = bb["term"]
+        if t["k"] != "switch":
+            continue
+        tgts = [tg for _, tg in t["arms"]] + [t["else"]]
+        div = [tg for tg in tgts if diverges_after(blocks, tg)]
+        if div and len(div) < len(tgts):
+            out.append((sym.operand(t["d"]), bi))
+    return out, sym
+
+
+def term_has(t, pred):
+    if pred(t):
+        return True
+    if isinstance(t, (tuple, frozenset)):
+        return any(term_has(x, pred) for x in t)
+    return False
+
+
 def check_rchk(ctx, prog):
     lex = prog.crate(LEX)
     n = 0
@@ -930,24 +1004,24 @@ def check_rchk(ctx, prog):
         site("%s: a variable that is not bound is rejected (lookup failure diverges)" % fn_name,
              "unbound:" + fn_name, bool(gets) and ok, b["span"],
              {"lookups": len(gets)})
-    # 2. duplicate variable: Map<Var,Regex>::entry -> Occupied diverges (lexer, compile_rule_set)
+    # 2. duplicate variable: a branch on a lookup / insertion into the bindings map keyed by the
+    #    binding's variable leads to a panic (entry -> Occupied, contains_key, get, insert's result)
+    MAP_TESTS = ("HashMap::entry", "HashMap::contains_key", "HashMap::get", "HashMap::insert")
     for fn_name in ("lexer", "compile_rule_set"):
         b = lex.body(fn_name)
         if b is None:
             site("%s found" % fn_name, "anchor:" + fn_name, False, None)
             continue
-        blocks = b["mir"]["blocks"]
-        ents = [bi for bi, c, t in cfg.calls_in(blocks)
-                if c == "std::collections::HashMap::entry" and "ast::Var" in (t.get("res") or "")]
-        ok = False
-        for bi in ents:
-            sw, sb = switch_after_call(blocks, bi)
-            if sw is not None:
-                tgt = variant_target(blocks, sw, {"Occupied"})
-                if tgt is not None and diverges_after(blocks, tgt):
-                    ok = True
-        site("%s: a variable defined twice is rejected (occupied entry diverges)" % fn_name,
-             "dupvar:" + fn_name, bool(ents) and ok, b["span"], {"entries": len(ents)})
+        gd, sym_ = guarded_divergences(lex, b)
+
+        def keyed_by_binding(t):
+            return isinstance(t, tuple) and len(t) == 4 and t[0] == "call" and \
+                any(t[1].endswith(m) for m in MAP_TESTS) and len(t[3]) >= 2 and \
+                term_has(t[3][1], lambda y: y == ("as", "Binding"))
+        hits = [bi for term, bi in gd if term_has(term, keyed_by_binding)]
+        site("%s: a variable defined twice is rejected (the test of the bindings map for the binding's "
+             "variable has a panicking branch)" % fn_name,
+             "dupvar:" + fn_name, bool(hits), b["span"], {"guarded panics": len(gd)})
     b = lex.body("lexer")
     if b is not None:
         blocks = b["mir"]["blocks"]
@@ -981,40 +1055,43 @@ def check_rchk(ctx, prog):
                 and "dfa::DFA" in (t.get("res") or "")]
         site("lexer: a first rule set not named Init is rejected (init DFA must exist)", "notinit",
              bool(exps), b["span"], {"sites": len(exps)})
-        # 5. error type twice: match user_error_type { None => set, Some(_) => panic }
-        ok5 = False
-        names = b["mir"].get("names", {})
-        uet = [int(k) for k, v in names.items() if v == "user_error_type"]
-        for bi, bb in enumerate(blocks):
-            for st in bb["st"]:
-                rv = st.get("rv")
-                if uet and rv and rv["k"] == "discr" and rv["p"]["l"] == uet[0] and bb["term"]["k"] == "switch":
-                    sw = bb["term"]
-                    for val, tgt in sw["arms"] + [[None, sw["else"]]]:
-                        if val != 0 and diverges_after(blocks, tgt):
-                            ok5 = True
-        site("lexer: a second `type Error` is rejected", "errtwice", ok5, b["span"])
-        # 6. named && unnamed
+        # 5. error type twice: a panicking branch on a value computed from the `type Error = ..` item
+        #    (the slot it is stored in, or Option::replace's result)
+        gd, sym_ = guarded_divergences(lex, b)
+        hits5 = [bi for term, bi in gd if term_has(term, lambda y: y == ("as", "ErrorType"))]
+        site("lexer: a second `type Error` is rejected", "errtwice", bool(hits5), b["span"])
+        # 6. named && unnamed: a panicking branch that depends on having seen both kinds of top-level
+        #    item. Recognised forms: two flags set in the arms of a match over the items; two
+        #    `any(..)` scans whose closures test the item kind.
         ok6 = False
-        nm = [int(k) for k, v in names.items() if v == "named"]
-        un = [int(k) for k, v in names.items() if v == "unnamed"]
-        if nm and un:
-            for bi, bb in enumerate(blocks):
+        names = b["mir"].get("names", {})
+        for term, bi in gd:
+            # (a) `iter().any(|r| matches!(r, Rule::RuleSet{..}))`-style
+            if term_has(term, lambda y: isinstance(y, tuple) and len(y) == 4 and y[0] == "call"
+                        and re.search(r"Iterator>?::any$", y[1])):
+                ok6 = True
+        if not ok6:
+            # (b) boolean flags assigned `true` in the arms of a match over the top-level items
+            flag_locals = set()
+            for bi2, bb in enumerate(blocks):
+                for st in bb["st"]:
+                    rv = st.get("rv")
+                    if rv and rv["k"] == "use" and rv["o"].get("int") == 1 and rv["o"].get("ty") == "bool" \
+                            and "lhs" in st and not st["lhs"]["p"]:
+                        flag_locals.add(st["lhs"]["l"])
+            for bi2, bb in enumerate(blocks):
                 t = bb["term"]
                 if t["k"] == "switch":
                     d = t["d"].get("move") or t["d"].get("copy")
                     if d is not None and not d["p"]:
-                        # switch on a copy of `unnamed` reached only when `named` is true
-                        src = None
+                        src = d["l"]
                         for st in bb["st"]:
                             if "lhs" in st and st["lhs"]["l"] == d["l"] and st["rv"]["k"] == "use":
                                 q = st["rv"]["o"].get("copy") or st["rv"]["o"].get("move")
                                 if q is not None:
                                     src = q["l"]
-                        if src in (un[0], nm[0]):
-                            true_tgt = t["else"]
-                            if diverges_after(blocks, true_tgt):
-                                ok6 = True
+                        if src in flag_locals and names.get(str(src)) and diverges_after(blocks, t["else"]):
+                            ok6 = True
         site("lexer: mixing named and unnamed rules is rejected", "mixed", ok6, b["span"])
         # 7. parser error is turned into a compile error and returned
         tce = [bi for bi, c, t in cfg.calls_in(blocks) if c == "syn::Error::to_compile_error"]
@@ -1061,6 +1138,30 @@ def check_rchk(ctx, prog):
 
 
 # ------------------------------------------------------------------------------------ R-FLOW / R-ORDER
+NFA_ACCESSOR_RE = re.compile(r"^nfa::NFA::(char_transitions|range_transitions|any_transitions|"
+                             r"end_of_input_transitions|get_accepting_state)$")
+
+
+def closure_accessor_tags(lex, cdef, depth=0):
+    out = set()
+    cb = lex.body(norm_path(cdef))
+    if cb is None or depth > 3:
+        return out
+    for bb in cb["mir"]["blocks"]:
+        if bb["cleanup"]:
+            continue
+        for st in bb["st"]:
+            rv = st.get("rv")
+            if rv and rv["k"] == "agg" and rv["kind"].get("agg") == "closure":
+                out |= closure_accessor_tags(lex, rv["kind"]["def"], depth + 1)
+        t = bb["term"]
+        if t["k"] == "call":
+            m = NFA_ACCESSOR_RE.match(norm_path(t.get("resp") or t["f"].get("path")) or "")
+            if m:
+                out.add(m.group(1))
+    return out
+
+
 def check_rflow(ctx, prog):
     """Flow-insensitive value dependence inside nfa_to_dfa from NFA accessor results to DFA builder
     arguments (must-flow only)."""
@@ -1097,6 +1198,10 @@ def check_rflow(ctx, prog):
             for o in rv.get("ops", []):
                 srcs += places_of_op(o)
             deps[d].update(srcs)
+            # a closure value carries what its body reads from the NFA (e.g. `.filter_map(|s|
+            # nfa.get_accepting_state(*s))`)
+            if rv["k"] == "agg" and rv["kind"].get("agg") == "closure":
+                src_tag.setdefault(d, set()).update(closure_accessor_tags(lex, rv["kind"]["def"]))
         t = bb["term"]
         if t["k"] == "call":
             callee = norm_path(t.get("resp") or t["f"].get("path")) or ""
@@ -1174,19 +1279,15 @@ def check_rorder(ctx, prog):
     if not ctx.ob("R-ORDER", "nfa_to_dfa found", b is not None, key="R-ORDER:anchor"):
         return
     blocks = b["mir"]["blocks"]
-    # the iterator feeding get_accepting_state/make_state_accepting iterates a BTreeSet
+    # the sets of NFA states that are popped and whose members feed make_state_accepting are ordered:
+    # rule priority = order of accepting states in DFA::accepting = iteration order of the set
     ok = False
     for bi, callee, t in cfg.calls_in(blocks):
-        if callee == "nfa::NFA::get_accepting_state":
-            # find the loop containing this call and the `next` call of its header
-            loops, dom, preds = cfg.natural_loops(blocks)
-            for h, members in loops.items():
-                if bi in members:
-                    for bj, c2, t2 in cfg.calls_in(blocks, members):
-                        full = t2.get("res") or ""
-                        if c2 and c2.endswith("as std::iter::Iterator>::next") and "btree_set::Iter" in full:
-                            ok = True
-    ctx.ob("R-ORDER", "accepting NFA states are collected while iterating an ordered set (BTreeSet)",
+        if callee == "std::vec::Vec::pop":
+            ty = b["mir"]["locals"][t["dest"]["l"]]
+            if "std::collections::BTreeSet<nfa::StateIdx>" in ty:
+                ok = True
+    ctx.ob("R-ORDER", "the sets of NFA states taken from the work list are ordered sets (BTreeSet)",
            ok, key="R-ORDER:btree", where=b["span"],
            detail="rule priority = order of accepting states in DFA::accepting; iterating a hash set "
                   "would make it depend on hash order")
@@ -1195,15 +1296,8 @@ def check_rorder(ctx, prog):
     ctx.ob("R-ORDER", "DFA states are keyed by ordered sets of NFA states",
            any(t.startswith("std::collections::HashMap<std::collections::BTreeSet<nfa::StateIdx>") for t in tys),
            key="R-ORDER:keys", where=b["span"])
-    ar = lex.body("nfa::NFA::add_regex")
-    if ctx.ob("R-ORDER", "NFA::add_regex found", ar is not None, key="R-ORDER:anchor:add_regex"):
-        order = [c for _, c, _ in sorted(cfg.calls_in(ar["mir"]["blocks"]), key=lambda x: x[0])
-                 if c in ("nfa::NFA::new_state", "nfa::NFA::make_state_accepting", "regex_to_nfa::add_re")]
-        ok = (order[:2] == ["nfa::NFA::new_state", "nfa::NFA::make_state_accepting"]
-              and "regex_to_nfa::add_re" in order and order.index("regex_to_nfa::add_re") > 1)
-        ctx.ob("R-ORDER", "a rule's accepting state is allocated before the states of its regex "
-               "(accepting states are numbered in rule order)", ok, key="R-ORDER:alloc",
-               where=ar["span"], detail=order)
+    # (that a rule's accepting state is a fresh state of its own add_regex call - hence numbered in
+    # rule order - is R-THOMPSON's add_regex obligation)
 
 
 # ------------------------------------------------------------------------------------ sibling rules on index arithmetic
@@ -1501,10 +1595,13 @@ def check_rinline(ctx, prog):
     the same condition: `predecessors.len() == 1` (plus `!initial` where arms are emitted)."""
     lex = prog.crate(LEX)
     sites = []
-    for b in lex.bodies:
+    from .inline import is_anchor
+    for b in lex.ibodies():
         name = norm_path(b["path"])
         if not name.startswith("dfa::codegen"):
             continue
+        if not is_anchor(name):
+            continue        # a helper: analysed where it is inlined
         blocks = b["mir"]["blocks"]
         dom = None
         for bi, c, t in cfg.calls_in(blocks):
